@@ -145,14 +145,18 @@ func GetInstantiatedType(t Type, genericTypes map[string]Type) Type {
 		listType, isList = CastList(instantiatedType)
 	}
 
+	// name of the generic type that was just replaced: occurences of the same name inside its replacement
+	// belong to the instantiating context and must not be replaced again (T := T-Vektor2 recursed forever)
+	replaced := ""
 	if generic, ok := CastGeneric(instantiatedType); ok {
 		instantiatedType = genericTypes[generic.Name]
+		replaced = generic.Name
 	}
 
 	if structType, isStruct := CastStruct(instantiatedType); isStruct && structType.genericType != nil {
 		instantiationTypes := make([]Type, len(structType.instantiatedWith))
 		for i, t := range structType.instantiatedWith {
-			if generic, isGeneric := CastGeneric(t); isGeneric {
+			if generic, isGeneric := CastGeneric(t); isGeneric && generic.Name != replaced {
 				instantiationTypes[i] = genericTypes[generic.String()]
 			} else {
 				instantiationTypes[i] = t
